@@ -278,7 +278,7 @@ func (e *srvEnv) do(method, path string, body []byte, chunked bool) (int, string
 func TestVerifC12(t *testing.T) {
 	const check = "C12.endpoint"
 	res := verifrt.NewResult(check)
-	res.Rule = "requests to the real handler chain (newHandler: log, timeout, request-size, recover middlewares; FS storage) over loopback HTTP: methods {POST, GET, PUT, HEAD, DELETE, PATCH, OPTIONS, lower-case, garbage}; bodies: valid reports with approved contents (hostile X values, config versions, 0-2 programs), re-uploads of a shorter/longer report under an already stored week and X, each with exactly one invalid aspect (week, config, X==0, each of the five build fields, counter/bucket near-misses, stack names, empty unapproved program, null program entry), truncated JSON, wrong types, partial objects, random bytes, bodies just under/over the size limit with Content-Length and with chunked encoding; requests are sent in sequences so that state carried over between requests shows; then rounds of 4-16 overlapping requests (two thirds valid with distinct week/X, one third invalid). Oracle: MUST-STORE => 200 and exactly one new/changed object <upload bucket>/<Week>/<%g of X>.json decoding to the same report; MUST-REJECT => 4xx and storage listing unchanged; always status < 500 and nothing outside the upload bucket. distinct = distinct request bodies; non-trivial = body parses as a JSON object"
+	res.Rule = "requests to the real handler chain (newHandler: log, timeout, request-size, recover middlewares; FS storage) over loopback HTTP: methods {POST, GET, PUT, HEAD, DELETE, PATCH, OPTIONS, lower-case, garbage}; bodies: valid reports with approved contents (hostile X values, config versions, 0-2 programs), re-uploads of a shorter/longer report under an already stored week and X, each with exactly one invalid aspect (week, config, X==0, each of the five build fields, counter/bucket near-misses, stack names, empty unapproved program, null program entry), truncated JSON, wrong types, partial objects, random bytes, bodies just under/over the size limit with Content-Length and with chunked encoding, small reports followed by blanks beyond the limit; requests are sent in sequences so that state carried over between requests shows; then rounds of 4-16 overlapping requests (two thirds valid with distinct week/X, one third invalid). Oracle: MUST-STORE => 200 and exactly one new/changed object <upload bucket>/<Week>/<%g of X>.json decoding to the same report; MUST-REJECT => 4xx and storage listing unchanged; always status < 500 and nothing outside the upload bucket. distinct = distinct request bodies; non-trivial = body parses as a JSON object"
 	base := vtmp("c12-")
 	defer os.RemoveAll(base)
 	const limit = 100 * 1024
@@ -333,6 +333,11 @@ func TestVerifC12(t *testing.T) {
 			body, _ = json.Marshal(rep)
 			expect = "reject"
 			why = "method:" + method
+		case k == 8 && i%40 == 8: // a small report followed by blanks that take the body over the size limit
+			body, _ = json.Marshal(rep)
+			body = append(body, bytes.Repeat([]byte(verifrt.Pick(rnd, []string{" ", "\n", " \t"})), limit+verifrt.Pick(rnd, []int{1, 5000, 2 * limit}))...)
+			expect = "reject"
+			why = "oversize-trailing-blanks"
 		case k == 8: // around the size limit
 			pad := verifrt.Pick(rnd, []int{limit - 2000, limit - 300, limit + 1, limit + 5000, 3 * limit})
 			rep.LastWeek = strings.Repeat("9", pad)
@@ -545,7 +550,7 @@ func TestVerifC12(t *testing.T) {
 		}
 	}
 	_ = storageRoot
-	res.Require("concurrent-round", "store:valid", "store:re-upload-shorter", "store:re-upload-longer-or-equal", "reject:week", "reject:config", "reject:X==0", "reject:goos", "reject:goarch", "reject:counter", "reject:stack", "reject:null-program", "reject:empty-unapproved-program",
+	res.Require("concurrent-round", "reject:oversize-trailing-blanks", "store:valid", "store:re-upload-shorter", "store:re-upload-longer-or-equal", "reject:week", "reject:config", "reject:X==0", "reject:goos", "reject:goarch", "reject:counter", "reject:stack", "reject:null-program", "reject:empty-unapproved-program",
 		"reject:truncated", "reject:wrong-type-or-partial", "reject:oversize", "reject:oversize-chunked", "store:near-limit")
 	if err := res.Write(); err != nil {
 		t.Fatal(err)
